@@ -183,7 +183,7 @@ Theorem int_chain_program_agrees : forall fuel x z0 ops v,
   run Asp [] fuel [chain_prog x z0 ops] = run Py [] fuel [chain_prog x z0 ops].
 Proof.
   intros fuel x z0 ops v Hsafe Hval.
-  destruct fuel as [|[|[|f]]]; try reflexivity.
+  destruct fuel as [|[|[|f]]]; [vm_compute; reflexivity|vm_compute; reflexivity|vm_compute; reflexivity|].
   now rewrite (run_chain_prog Asp f x z0 ops v), (run_chain_prog Py f x z0 ops v).
 Qed.
 
